@@ -193,7 +193,7 @@ PROPS = {
     "C14": dict(
         lean=["Upf.Props.C14"],
         level="proof",
-        claim="markers_exact for every stored FAR list and every list of updates with distinct IDs: the emitted markers are exactly one per flagged update "
+        claim="Handler level (Agent.modify = handleSessionModificationRequest): with the feature enabled a modification emits exactly the markers its Update FAR loop collected over the session's FARs, once the create/update part is programmed; with the feature disabled, for an unknown session, or when a Create PDR / Update FAR does not parse, none (modification_emits_exactly, failed_modification_emits_none). markers_exact for every stored FAR list and every list of updates with distinct IDs: the emitted markers are exactly one per flagged update "
               "of a known FAR, built from the FAR stored before the message (old peer, old TEID, UPF address of that interface), in order; none without the "
               "flag, for unknown IDs, for creations; GTP-U port constant 2152 regenerated. Tied by T2: the packets the REAL agent writes to the "
               "end-marker unixpacket socket, decoded with gopacket, after the datapath update was observed.",
@@ -207,7 +207,7 @@ PROPS = {
     "C02": dict(
         lean=["Upf.Props.C02"],
         level="proof",
-        claim="For every world, association and request of the agent model: every establishment reply is addressed to the request's CP SEID; a reply carrying "
+        claim="Handler model: every modification reply (accepted or rejected at any point) is addressed to the control plane's SEID for the session - the one a CP F-SEID of this request brings, else the stored one; an accepted modification stores it, and the following deletion response carries it (mod_reply_seid, mod_accepted_stores_cp_seid, cp_seid_change_is_remembered). For every world, association and request of the agent model: every establishment reply is addressed to the request's CP SEID; a reply carrying "
               "a UP F-SEID is accepted, carries exactly the SEID the session is stored under; deletion/modification of an unknown session is rejected with "
               "SEID 0 and changes nothing; accepted deletion is addressed to the stored CP SEID. 'Exactly one response of the matching type with the request's "
               "sequence number, responses never answered': T1 facts regenerated from PFCPConn.HandlePFCPMsg and the handlers (Gen.Dispatch) and evaluated in Lean - "
